@@ -33,6 +33,23 @@ CHECKS = {
             BASE_NOTE + " incrementMod/incrementModOffset come from the shim (AceCommon is not vendored).", "3/C17"),
 }
 
+CHECKS.update({
+    "C13": ("exploration",
+            "reference-model monitor (statement's formula on 64-bit true time) over exhaustive (phase, gap) pairs and seeded schedules; ASan+UBSan slice",
+            "The real SystemClock is driven through its protected clockMillis() hook: every start phase x gap pair (thorough: all "
+            "65536 x 64536; quick: all phases x ~2000 boundary/seeded gaps on three counter bases straddling 2^16/2^31/2^32) and "
+            "seeded multi-step schedules are compared online with T + floor((m-m0)/1000). One-step behaviour depends only on "
+            "(phase, gap), so the thorough tier is exhaustive for one step; multi-step reach is sampled.",
+            BASE_NOTE + " Host unsigned long is 64 bit; the injected counter is truncated to 32 bit.", "3/C13"),
+    "C14": ("exploration",
+            "bounded explicit-state exploration of the real class by replay, with online trace-specification monitors and a shadow clock",
+            "Every input sequence to depth 6 (quick) / 8 (thorough) over time advances x reference-clock outcomes is replayed on a "
+            "fresh SystemClockLoop for 18 configurations, plus seeded 3000-step random walks; monitors check apply-immediately, "
+            "backup writes, no change on invalid/timeout, retry lower bound, bounded progress and silence without a reference. "
+            "Reported as exploration (no separate model is checked); distinct FSM (state, period) pairs and edges are measured.",
+            BASE_NOTE + " millis() never crosses 2^32 in these runs (64-bit unsigned long on the host).", "3/C14"),
+})
+
 PLANNED = {
 }
 
